@@ -209,13 +209,20 @@ impl Storage {
                                 .map_err(map_random_access_err)?;
                         }
                     } else {
-                        storage
+                        match storage
                             .del(
                                 info.index,
                                 info.length.expect("When deleting, length must be given"),
                             )
                             .await
-                            .map_err(map_random_access_err)?;
+                        {
+                            Ok(()) => {}
+                            // The backends refuse a delete that starts beyond the end of the
+                            // store. There is nothing to delete there: an earlier delete that
+                            // reached the end has truncated the store.
+                            Err(RandomAccessError::OutOfBounds { .. }) => {}
+                            Err(err) => return Err(map_random_access_err(err)),
+                        }
                     }
                 }
                 StoreInfoType::Size => {
